@@ -597,7 +597,13 @@ def judge_complete(params, out):
     where = describe(params)
     n_chain, n_warm, n_main = params["n_chain"], params["n_warm"], params["n_main"]
     if out["raised"]:
-        return [("C13", f"run-raises:{out['raised']}", f"sample_chains raises {out['raised']} ({where})")]
+        v = [("C13", f"run-raises:{out['raised']}", f"sample_chains raises {out['raised']} ({where})")]
+        if params.get("adapters") and any(e[0] in ("initialize", "update") for e in out["events"]) and not any(e[0] == "finalize" for e in out["events"][-1:]):
+            last = next((e for e in reversed(out["events"]) if e[0] in ("sample", "update", "initialize", "finalize")), None)
+            if last is not None and last[0] in ("update", "sample") and not any(e[0] == "sample" and e[3].count(">t2") >= params["n_warm"] for e in out["events"]):
+                # the run dies during the warm-up, at the point where a stage's adapters are finalised
+                v.append(("C16", f"adaptation-raises:{out['raised']}", f"sample_chains raises {out['raised']} when the adapters of a warm-up stage are finalised ({where})"))
+        return v
     res = unpack(out["result"])
     if res is None:
         return [("C13", "result-shape", f"sample_chains does not return (final_states, traces, statistics) ({where})")]
